@@ -1177,6 +1177,8 @@ class SQLModel:
                 )
                 for k in excess_sub_declared_keys:
                     del subsql.declared_term_dependencies[k]
+                # the merged step now also computes this node: key it as such
+                subsql.ops_key = f"extend({extend_node}, {subsql.terms.keys()})"
                 return subsql
         view_name = "extend_" + str(temp_id_source[0])
         temp_id_source[0] = temp_id_source[0] + 1
